@@ -313,6 +313,7 @@ func checkCrewHistory(h CrewHistory) (v ev.Verdict) {
 	}
 	shadow := shadowStore{}
 	var c2 *sio.Crew
+	var shadow2 shadowStore // the store as the restarted crew keeps feeding it
 	multi, delRecreate, moved := false, false, false
 	for i, r := range h.Rounds {
 		if i == h.Restart {
@@ -331,6 +332,12 @@ func checkCrewHistory(h CrewHistory) (v ev.Verdict) {
 			if err != nil {
 				v.Failf("NewCrew: %v", err)
 				return
+			}
+			shadow2 = shadowStore{}
+			var ms2 map[string]*crew.Machine
+			json.Unmarshal(js, &ms2)
+			for mid, m := range ms2 {
+				shadow2[mid] = m
 			}
 			for mid, m := range ms {
 				if err := c2.SetMachine(ctx, mid, m.SpecSource, m.State); err != nil {
@@ -382,6 +389,13 @@ func checkCrewHistory(h CrewHistory) (v ev.Verdict) {
 			}
 			if l2 := viewText(liveView(c2)); l2 != lv {
 				v.Failf("round %d: the crew restarted from the store is at\n %s\nthe original at\n %s", i, l2, lv)
+				return
+			}
+			// from the restart on it is the restarted crew whose reports
+			// keep the store up to date
+			shadow2.fold(res2.Changed)
+			if sv2 := viewText(shadow2.view()); sv2 != lv {
+				v.Failf("round %d (%s): after a restart at round %d, the store fed by the restarted crew's reports differs from that crew:\n live  %s\n store %s\n reported %s", i, ev.JS(r), h.Restart, lv, sv2, ev.JS(res2.Changed))
 				return
 			}
 		}
